@@ -657,7 +657,7 @@ func (endp *Endpoint) wrapErr(msgId string, mangleUTF8 bool, command string, err
 		b := strings.Builder{}
 		b.Grow(len(res.Message))
 		for _, ch := range res.Message {
-			if ch > 128 {
+			if ch >= 128 {
 				b.WriteRune('?')
 			} else {
 				b.WriteRune(ch)
